@@ -63,6 +63,10 @@ func (p *Paragraph) WriteTo(out io.Writer) error {
 		 * a space, and a blank line is written as " .". The newline that
 		 * ends a folded value (the reader adds one) is not a line itself. */
 		lines := strings.Split(strings.TrimSuffix(value, "\n"), "\n")
+		if strings.TrimLeftFunc(lines[0], unicode.IsSpace) != lines[0] {
+			/* Indentation only survives on a continuation line. */
+			lines = append([]string{""}, lines...)
+		}
 		for i := 1; i < len(lines); i++ {
 			if strings.TrimSpace(lines[i]) == "" {
 				lines[i] = "."
